@@ -672,3 +672,46 @@ impl<'a> GeneratorState<'a> {
         Ok(())
     }
 }
+
+// Verification hook (H3): drive asm() directly on a constructed operand.
+// kind: 0 Nothing, 1 Immediate(off), 2 Tmp(false), 3 Absolute(name, eight_bits, off),
+//       4 AbsoluteX(name), 5 AbsoluteY(name), 6 A(false), 7 Label(name), 8 X, 9 Y
+#[cfg(cc6502_verif)]
+impl<'a> GeneratorState<'a> {
+    pub fn verif_asm(
+        &mut self,
+        mnemonic: AsmMnemonic,
+        kind: u8,
+        name: &str,
+        eight_bits: bool,
+        off: i32,
+        high_byte: bool,
+        protected: bool,
+    ) -> Result<Option<AsmInstruction>, Error> {
+        let operand = match kind {
+            0 => ExprType::Nothing,
+            1 => ExprType::Immediate(off),
+            2 => ExprType::Tmp(false),
+            3 => ExprType::Absolute(name.to_string(), eight_bits, off),
+            4 => ExprType::AbsoluteX(name.to_string()),
+            5 => ExprType::AbsoluteY(name.to_string()),
+            6 => ExprType::A(false),
+            7 => ExprType::Label(name.to_string()),
+            8 => ExprType::X,
+            _ => ExprType::Y,
+        };
+        let f = "verif_asm".to_string();
+        self.functions_code.insert(f.clone(), AssemblyCode::new());
+        let saved = self.current_function.replace(f.clone());
+        self.protected = protected;
+        let r = self.asm(mnemonic, &operand, 0, high_byte);
+        self.protected = false;
+        self.current_function = saved;
+        let code = self.functions_code.remove(&f).unwrap();
+        r?;
+        Ok(code.verif_lines().into_iter().rev().find_map(|l| match l {
+            crate::assemble::VerifLine::Instruction(i) => Some(i),
+            _ => None,
+        }))
+    }
+}
